@@ -17,6 +17,7 @@ import (
 func main() {
 	mon.Main("msgid", map[string]mon.PropFunc{
 		"C04": runC04Wire, // connection-level arm of C04 (write path incl. the compression branch)
+		"C06": runC04Wire, // connection-level arm of C06: msg_key / AES key derivation of every frame a real Conn writes under concurrent send+receive, checked by the reference model; -race
 		"C07": runC07,
 		"C08": runC08,
 	})
